@@ -103,16 +103,25 @@ class _NestResolver(dict):
         if clean_id != column:
             super().__setitem__(clean_id, _NestedFieldResolver(column, outer))
 
+    def _nested_column(self, name: str) -> str | None:
+        """The nested column called `name`; the evaluator calls a column whose name is not
+        identifier-like by its cleaned name."""
+        for column in self._outer.nested_columns:
+            if name == column or name == clean_column_name(column):
+                return column
+        return None
+
     def __contains__(self, item):
         top_nest = item if "." not in item else item.split(".")[0].strip()
-        return top_nest in self._outer.nested_columns
+        return self._nested_column(top_nest) is not None
 
     def __getitem__(self, item):
         top_nest = item if "." not in item else item.split(".")[0].strip()
         if not super().__contains__(top_nest):
-            if top_nest not in self._outer.nested_columns:
+            column = self._nested_column(top_nest)
+            if column is None:
                 raise KeyError(f"Unknown nest {top_nest}")
-            self._initialize_column_resolver(top_nest, self._outer)
+            self._initialize_column_resolver(column, self._outer)
         return super().__getitem__(top_nest)
 
     def __setitem__(self, item, _):
@@ -125,9 +134,12 @@ class _NestResolver(dict):
         # Since the resolvers are created as-needed in __getitem__, all we need
         # to do is delete them from the local cache when this pattern is detected.
         if "." in item:
-            top_nest = item.split(".")[0].strip()
-            if top_nest in self._outer.nested_columns and super().__contains__(top_nest):
-                del self[top_nest]  # force re-creation in __setitem__
+            column = self._nested_column(item.split(".")[0].strip())
+            if column is not None:
+                # force re-creation in __getitem__, under the name and under the cleaned name
+                for key in (column, clean_column_name(column)):
+                    if super().__contains__(key):
+                        del self[key]
 
 
 class _NestedFieldResolver:
